@@ -60,6 +60,7 @@ type vfMuxCfg struct {
 	wdelayMS int
 	pad      int  // size of every frame body the peer sends (0: as small as it gets)
 	tviaHeader bool // the timeout is set through the _timeout request header
+	ctxVia     string // "": NewFContext per caller; "clone" / "fclone": every caller clones one inbound context (an FContextImpl / a third-party FContext wrapping one)
 	malformed bool // the sequence contains a frame that is not well-formed
 	burst    bool  // the peer sends the whole sequence at once, after every caller's request arrived
 }
@@ -97,6 +98,8 @@ func vfParseMuxCfg(s string) vfMuxCfg {
 			c.pad, _ = strconv.Atoi(p[1])
 		case "tvia":
 			c.tviaHeader = p[1] == "header"
+		case "ctx":
+			c.ctxVia = p[1]
 		case "f":
 			for _, t := range strings.Split(p[1], ".") {
 				if t == "u" {
@@ -114,6 +117,11 @@ func vfParseMuxCfg(s string) vfMuxCfg {
 			}
 		case "t":
 			for _, t := range strings.Split(p[1], "/") {
+				if t == "h" {
+					// a positive timeout below the millisecond granularity of the _timeout header
+					c.timeouts = append(c.timeouts, 500*time.Microsecond)
+					continue
+				}
 				ms, _ := strconv.Atoi(t)
 				c.timeouts = append(c.timeouts, time.Duration(ms)*time.Millisecond)
 			}
@@ -135,10 +143,27 @@ func vfMuxMake(scn string) (func(), func(*vsched.Exec) (string, *vsched.Violatio
 		st.pipe = p
 		tr := NewAdapterTransport(p).(*fAdapterTransport)
 		st.tr = tr
+		var inbound FContext
 		for i := 0; i < cfg.n; i++ {
 			ctx := NewFContext(fmt.Sprintf("cid%d", i))
+			switch cfg.ctxVia {
+			case "clone":
+				// a server handling one inbound request makes its outbound calls with clones of the
+				// inbound context
+				if inbound == nil {
+					inbound = NewFContext("inbound")
+				}
+				ctx = inbound.(*FContextImpl).Clone()
+			case "fclone":
+				if inbound == nil {
+					inbound = vfDecoCtx{NewFContext("inbound")}
+				}
+				ctx = Clone(inbound)
+			}
 			// every FContext is confined to its caller in this harness (C17 covers sharing)
-			ctx.(*FContextImpl).mu.SetQuiet()
+			if ci, ok := ctx.(*FContextImpl); ok {
+				ci.mu.SetQuiet()
+			}
 			if cfg.tviaHeader {
 				// the timeout arrives as a header (a gateway copying the inbound request headers onto
 				// its outbound context)
@@ -321,6 +346,15 @@ func vfMuxMake(scn string) (func(), func(*vsched.Exec) (string, *vsched.Violatio
 			}
 			return out, first
 		}
+		// correlation is by op id: two requests of one transport must not have been given the same one
+		for i := range st.callers {
+			for j := 0; j < i; j++ {
+				if st.callers[i].opid == st.callers[j].opid {
+					viol("C01/callers-share-an-op-id", fmt.Sprintf("the contexts of callers %d and %d carry the same op id %s", j, i, st.callers[i].opid))
+					return out, first
+				}
+			}
+		}
 		if e.Status == vsched.Panicked {
 			viol(vfPropOr("C01")+"/panic/"+vfFirstLine(e.PanicS), e.PanicS)
 			return out, first
@@ -365,7 +399,9 @@ func vfMuxMake(scn string) (func(), func(*vsched.Exec) (string, *vsched.Violatio
 				if c.retClock+c.start < c.start+int64(c.timeout) {
 					viol("C13/early-timeout", fmt.Sprintf("caller%d reported TIMED_OUT at %dns, before its timeout %s", i, c.retClock, c.timeout))
 				}
-				if e.EarlyTimers == 0 && cfg.wstall < 0 && cfg.fstall < 0 && cfg.werr < 0 && c.retClock > int64(c.timeout) {
+				if e.EarlyTimers == 0 && cfg.wstall < 0 && cfg.fstall < 0 && cfg.werr < 0 && c.retClock > int64((c.timeout+time.Millisecond-1)/time.Millisecond*time.Millisecond) {
+					// (the timeout travels in whole milliseconds - documentation/protocol.md, _timeout -
+					// so the deadline of a timeout that is not a whole number of them is the next one)
 					viol("C13/late-timeout", fmt.Sprintf("caller%d reported TIMED_OUT %dns after the call although its timeout is %s, no timer fired early and nothing stalled", i, c.retClock, c.timeout))
 				}
 			case c.outcome == "sent" && cfg.oneway:
@@ -475,6 +511,13 @@ func init() {
 					out = append(out, fmt.Sprintf("n=2,t=5/5,pad=%d,f=%s", pad, f))
 				}
 			}
+			// a positive timeout of half a millisecond (silent peer, late peer, peer answering the other)
+			out = append(out, "n=1,t=h,f=", "n=2,t=h/5,f=", "n=2,t=h/5,f=2", "n=2,t=h/5,call=oneway,ws=1,f=")
+			// callers whose contexts are clones of one inbound context (of the library's own type, of a
+			// third-party type)
+			for _, f := range []string{"2.1", "1.2", "2"} {
+				out = append(out, "n=2,t=5/5,ctx=clone,f="+f, "n=2,t=5/5,ctx=fclone,f="+f)
+			}
 			// the timeout given through the request header instead of SetTimeout
 			for _, f := range []string{"", "2", "2.1"} {
 				out = append(out, "n=2,t=1/5,tvia=header,f="+f)
@@ -513,3 +556,6 @@ func vfOpKey(opid string) uint64 {
 	v, _ := strconv.ParseUint(opid, 10, 64)
 	return v
 }
+
+// vfDecoCtx is a third-party FContext: a decorator around the library's own.
+type vfDecoCtx struct{ FContext }
